@@ -153,6 +153,10 @@ def changed_notebooks(ref_base, ref_remote, paths=None, repo_dir=None):
     repo, popped = get_repo(repo_dir or os.curdir)
     if repo_dir is None:
         repo_dir = os.path.relpath(repo.working_tree_dir, os.curdir)
+    elif popped:
+        # repo_dir is a subdirectory of the repository, but the paths of
+        # the diff entries are relative to the root of its working tree
+        repo_dir = repo.working_tree_dir
     if isinstance(paths, str):
         paths = (paths,)
     if paths and popped:
